@@ -13,7 +13,6 @@ use xtmodel::{is_blank, ModelErr, TokDe};
 
 #[derive(Debug)]
 pub enum Error {
-	Io(io::Error),
 	IoWrite,
 	Syntax,
 	Custom,
